@@ -338,6 +338,7 @@ def _ift_lemma(S):
     ift = -((v1 * (h22 * j1 - h12 * j2) + v2 * (-h12 * j1 + h11 * j2)) / det)
     S.add('NonlinearSolve/implicit-function-lemma/adjoint_contraction_equals_minus_cotangent_times_inverse_hessian_times_parameter_jacobian', hy,
           tm.eq(l1 * j1 + l2 * j2, ift))
+    S.canary('NonlinearSolve/implicit-function-lemma', hy)
 
 
 # ---------------------------------------------------------------------------
